@@ -59,6 +59,8 @@ def tasks_c01(tier, seed):
         ts += explore("Q8", "w1-in4-default-direct", 2, timeout="60s") + explore("Q8", alt, 2, timeout="60s") + explore("Q8", CFG_DEFAULT, 1, shards=2, timeout="60s")
         # a backlog of 36 callbacks on one group while another group waits and a further submission arrives
         ts += explore("Q9", "w1-in4-default-direct", 2, shards=2, timeout="60s") + explore("Q9", CFG_DEFAULT, 1, shards=4, timeout="60s")
+        # a chain of 700 callbacks each submitting the next one to its own group (the group is never idle)
+        ts += explore("Q10", "w1-in4-default-direct", 1, timeout="60s") + explore("Q10", CFG_DEFAULT, 0, timeout="60s")
         # a second Serve as soon as Shutdown has returned, with a callback of the first epoch still to finish
         ts += explore("S13b", "w1-in4-default-direct", 2, timeout="60s")
         # Q5: query requests, expiry and a concurrent callback of the same (non-default) group
@@ -90,7 +92,7 @@ def tasks_c01(tier, seed):
 
 def tasks_c03(tier, seed):
     ts = seq("c03s", tier, shards=4)
-    scens = ["S1", "S2", "S2u", "S3Reset", "S3ResetAll", "S3TokenEvent", "S3TokenEventWithID", "S3TokenReset", "S4", "S4q", "S6", "S7", "S8", "S8r", "S9",
+    scens = ["S1", "S2", "S2u", "S3Reset", "S3ResetAll", "S3TokenEvent", "S3TokenEventWithID", "S3TokenReset", "S3Reaccess", "S3DeleteEv", "S3CustomNil", "S4", "S4q", "S6", "S7", "S8", "S8r", "S9",
              "S10", "S11", "S12", "S13", "S13b", "Q6", "QEshutdown", "QEshutdownBusy"]
     if tier == "quick":
         for s in scens:
@@ -173,8 +175,11 @@ def tasks_c15(tier, seed):
     # a query event that outlives a Shutdown / Serve cycle, and a new one in the second epoch
     if tier == "quick":
         ts = explore("QErestart", w1, 0, shards=1, timeout="100s")  # bound 1 is 4 million schedules: thorough tier
+        # the duration is changed between two starts: an event of the second start lives for the new duration
+        ts += explore("QEduration", w1, 1, shards=1, timeout="100s")
     else:
         ts = explore("QErestart", w1, 1, shards=16, timeout="5m") + explore("QErestart", CFG_DEFAULT, 0, shards=4, timeout="5m")
+        ts += explore("QEduration", w1, 2, shards=4, timeout="5m") + explore("QEduration", CFG_DEFAULT, 1, shards=4, timeout="5m")
     for s in QE_SCENS:
         big = s in ("QE2", "QEconc", "QEshutdownBusy")
         if tier == "quick":
@@ -193,6 +198,11 @@ ST_SCENS = ["ST1", "ST2", "ST3"]
 def tasks_c11(tier, seed):
     ts = seq("c11", tier, shards=16)
     ts += explore("ST4-badger", "", 2 if tier == "quick" else -1, shards=1 if tier == "quick" else 4, timeout="100s" if tier == "quick" else "10m")
+    # a transaction handle closed twice while others contend for the id
+    if tier == "quick":
+        ts += explore("ST5-mock", "", 2, timeout="100s") + explore("ST5-badger-prefix", "", 1, timeout="100s")
+    else:
+        ts += explore("ST5-mock", "", -1, shards=4, timeout="5m") + explore("ST5-badger-prefix", "", 2, shards=4, timeout="5m")
     for p in ST_SCENS:
         if tier == "quick":
             ts += explore(p + "-mock", "", 2, timeout="100s")
@@ -244,8 +254,8 @@ def tasks_c14(tier, seed):
 
 def IX_TASKS(tier):
     if tier == "quick":
-        return explore("IX1", "", 2, shards=2, timeout="100s")
-    return explore("IX1", "", -1, shards=8, timeout="10m")
+        return explore("IX1", "", 2, shards=2, timeout="100s") + explore("IX2", "", 1, shards=4, timeout="100s")
+    return explore("IX1", "", -1, shards=8, timeout="10m") + explore("IX2", "", 2, shards=8, timeout="10m")
 
 
 def tasks_c16(tier, seed):
